@@ -499,6 +499,9 @@ def _loop_as_comp(prog, lid, name):
             return mapping[t]
         return tuple(sub(x) if isinstance(x, tuple) else x for x in t)
 
+    # inner loops first: their tables refer to this loop's variables, which become bound variables below
+    elt = tuple(comprehend(prog, e, 1) for e in elt) if kind == "dict" else comprehend(prog, elt, 1)
+    conds = [comprehend(prog, c, 1) for c in conds]
     elt2 = sub(_shift_bv(elt, 1))
     conds2 = tuple(sub(_shift_bv(c, 1)) for c in conds)
     return kind, elt2, ((target, lp.iter, conds2),), init
